@@ -261,6 +261,35 @@ def job_reject(job):
                        note="every feasible path raises ValueError" if raised == len(res) else None)
 
 
+def job_reject_mixed(job):
+    """A saturation array in which only *some* records are off the simplex must be rejected as well (every record is
+    checked, in either position)."""
+    mod = _load()
+    job.encoded(mod, "relative_permeabilities")
+    for bad_at in (0, 1):
+        for sense in ("above", "below"):
+            ranges = dict(n_o=(1, 6), n_w=(1, 6), n_g=(1, 6), S_or=(0, "0.3"), S_wc=(0, "0.3"), S_gc=(0, "0.3"), k_ro_max=(0, 1), k_rw_max=(0, 1), k_rg_max=(0, 1))
+            for j in range(2):
+                ranges.update({f"So{j}": (0, 1), f"Sw{j}": (0, 1), f"Sg{j}": (-1, 2)})
+            vs, dom = box(None, **ranges)
+            good = 1 - bad_at
+            dom = dom + [T.b_eq(P(vs[f"So{good}"] + vs[f"Sw{good}"] + vs[f"Sg{good}"]), T.ONE), T.b_le0(T.p_neg(P(vs[f"Sg{good}"])))]
+            tot = vs[f"So{bad_at}"] + vs[f"Sw{bad_at}"] + vs[f"Sg{bad_at}"]
+            dom.append(T.b_lt(T.Poly.const(Fraction(1001, 1000)), P(tot)) if sense == "above" else T.b_lt(P(tot), T.Poly.const(Fraction(999, 1000))))
+            params = mod.RelPermParams(**{k: vs[k] for k in PNAMES})
+            rec = SymRec({k: SymArray([vs[k + "0"], vs[k + "1"]], "f8") for k in ("So", "Sw", "Sg")})
+            res = paths(job, lambda: mod.relative_permeabilities(rec, params), dom, catch=(ValueError,), max_paths=64)
+            raised = sum(1 for pr in res if pr.exc is not None)
+            for k, pr in enumerate(res):
+                if pr.exc is None:
+                    job.prove(f"reject/record {bad_at} of 2 sums {sense} one by more than 1e-3, the other record is on the simplex/accepted[path{k}]", pr.pc,
+                              bound="two saturation records", replay=(replay_reject, {"rows": 2}))
+            if not raised:
+                job.errors.append(f"reject/mixed[{bad_at},{sense}]: no path raises")
+            else:
+                job.record(f"reject/mixed[{bad_at},{sense}]: {raised} of {len(res)} path(s) raise ValueError", "unsat" if raised == len(res) else "see paths", 0.0)
+
+
 def job_twophase(job, exps):
     mod = _load()
     job.encoded(mod, "relative_permeabilities_twophase", "relative_permeabilities")
@@ -297,5 +326,6 @@ def jobs(tier):
     out = [(f"kr-n{e[0]}{e[1]}{e[2]}", (lambda j, e=e: job_kr(j, e))) for e in ints]
     out.append(("kr-fractional", lambda j: job_kr(j, None)))
     out.append(("reject", job_reject))
+    out.append(("reject-mixed", job_reject_mixed))
     out += [(f"twophase-n{e[0]}", (lambda j, e=e: job_twophase(j, e))) for e in ([(2, 2, 2)] if tier == "quick" else [(1, 1, 1), (2, 2, 2), (3, 3, 3)])]
     return out
